@@ -5,7 +5,69 @@
 
 package bfe_bufio
 
+//@ package_invariant[sentinel_errors] ErrInvalidUnreadByte != nil && ErrBufferFull != nil && ErrNegativeCount != nil
+
 //@ func NewWriterSize
 //@   trusted constructor; body not verified yet
 //@   modifies nothing
 //@   ensures result0 != nil
+
+//@ spec wfR(b *Reader) bool := b != nil && b.rd != nil && 0 <= b.r && b.r <= b.w && b.w <= len(b.buf) && len(b.buf) >= 1 && len(b.buf) <= cap(b.buf)
+
+//@ func (*Reader).readErr
+//@   props C22
+//@   nopanic
+//@   requires b != nil
+//@   modifies b.err
+//@   ensures result0 == old(b.err) && b.err == nil
+
+//@ func (*Reader).Buffered
+//@   props C22
+//@   nopanic
+//@   requires wfR(b)
+//@   modifies nothing
+//@   ensures result0 == b.w - b.r
+
+//@ func (*Reader).fill
+//@   props C22
+//@   nopanic
+//@   requires wfR(b)
+//@   modifies b.r, b.w, b.err, b.buf[..]
+//@   ensures[wf] wfR(b)
+//@   ensures[nothing_consumed] b.r == 0 && b.w >= old(b.w) - old(b.r) && b.TotalRead == old(b.TotalRead)
+//@   ensures[buffered_bytes_kept_in_order] forall k int :: 0 <= k && k < old(b.w) - old(b.r) ==> b.buf[k] == old(b.buf[b.r + k])
+
+//@ func (*Reader).Read
+//@   props C22
+//@   nopanic
+//@   requires 0 <= b.TotalRead && b.TotalRead <= 4611686018427387904
+//@   note the byte counter is assumed below 2^62 (no int overflow)
+//@   requires wfR(b) && disjoint(p, b.buf)
+//@   modifies b.r, b.w, b.err, b.lastByte, b.lastRuneSize, b.TotalRead, b.buf[..], p[..]
+//@   ensures[wf] wfR(b)
+//@   ensures[count_in_range] 0 <= n && n <= len(p)
+//@   ensures[counter_equals_bytes_delivered] b.TotalRead == old(b.TotalRead) + n
+
+//@ func (*Reader).ReadByte
+//@   props C22
+//@   nopanic
+//@   requires 0 <= b.TotalRead && b.TotalRead <= 4611686018427387904
+//@   note the byte counter is assumed below 2^62 (no int overflow)
+//@   requires wfR(b)
+//@   modifies b.r, b.w, b.err, b.lastByte, b.lastRuneSize, b.TotalRead, b.buf[..]
+//@   ensures[wf] wfR(b)
+//@   ensures[counter_plus_one_on_success] err == nil ==> b.TotalRead == old(b.TotalRead) + 1
+//@   ensures[counter_unchanged_on_error] err != nil ==> b.TotalRead == old(b.TotalRead)
+//@   loop 1 invariant wfR(b) && b.TotalRead == old(b.TotalRead)
+
+//@ func (*Reader).ReadSlice
+//@   props C22
+//@   nopanic
+//@   requires 0 <= b.TotalRead && b.TotalRead <= 4611686018427387904
+//@   note the byte counter is assumed below 2^62 (no int overflow)
+//@   requires wfR(b)
+//@   modifies b.r, b.w, b.err, b.TotalRead, b.buf[..]
+//@   ensures[wf] wfR(b)
+//@   ensures[counter_equals_bytes_delivered] b.TotalRead == old(b.TotalRead) + len(line)
+//@   ensures[line_ends_with_delimiter_when_no_error] err == nil ==> len(line) >= 1 && line[len(line)-1] == delim
+//@   loop 1 invariant wfR(b) && b.TotalRead == old(b.TotalRead)
